@@ -251,6 +251,8 @@ Definition c_insert_hint (f : flavour) (pos : nat) (k v : Z) (c : cont) (n : nat
       else ({| tr := set_val_at pos v t; sz := sz c |}, n, pos)
   end.
 
+(* copy constructor / operator= (after clear()): plain inserts of the source's entries in iteration
+   order, Map.hpp:44-51,65-73 and MultiMap.hpp:44-51,64-72 *)
 Definition c_copy (f : flavour) (src : cont) (n : nat) : cont * nat :=
   fold_left (fun acc e => let '(c1, n1, _) := c_insert f (ekey e) (eval e) (fst acc) (snd acc) in (c1, n1))
             (inorder (tr src)) (c_empty, n).
@@ -313,16 +315,13 @@ Definition step (f : flavour) (st : mstate) (o : op) : mstate * (res * nat) :=
   | OFront => (st, (RVal (option_map eval (hd_error (inorder t))), O))
   | OBack => (st, (RVal (option_map eval (last_error (inorder t))), O))
   | OSel b => ({| m_a := m_a st; m_b := m_b st; m_cur := b; m_next := n |}, (RNone, O))
-  | OCopy =>
-      match f with
-      | FMap => let '(c', n') := c_copy f (m_other st) n in (m_set st c' n', (RNone, O))
-      | FMulti => (st, (RNone, O))
-      end
+  | OCopy => let '(c', n') := c_copy f (m_other st) n in (m_set st c' n', (RNone, O))
   | OBulk =>
       match f with
       | FMap => let '(c', n') := c_bulk f (m_other st) c n in (m_set st c' n', (RNone, O))
       | FMulti => (st, (RNone, O))
       end
+  | OSelf => (st, (RNone, O))       (* `if(this == &other) return *this;` *)
   end.
 
 (* the position the hinted MultiMap insert chose (input of the relational spec) *)
